@@ -340,7 +340,11 @@ fn gen_tree_eligible_in(rng: &Rng, pool: &Pool, depth: usize, max_files: usize, 
         // eligible names of unusual shape: several dots, a leading dot, spaces, very short stems
         if rng.chance(1, 6) {
             let k = rng.below(50);
-            n = match rng.below(9) {
+            n = match rng.below(12) {
+                // characters that are separators, drive letters, wildcards or escapes elsewhere but ordinary bytes of a name here
+                9 => format!("tokens{}ERC{}.sol", rng.ps(&["\\", ":", "*", "?", "|", "\"", "'", "%2F", "#", ";", "&", "$", "~", "\\\\", "..", "<", ">", "`", "=", "@", "^", "+", ",", "!", "(", ")", "[", "]", "{", "}"]), k),
+                10 => format!("{}{}.sol", rng.ps(&["\\", "C:\\src\\", "-", "--path", "~", "#", "%", "$HOME", "*", "\u{130}", "\u{212A}", "\u{1E9E}", "\u{FB03}"]), k),
+                11 => format!("Vault{}{}.sol", k, rng.ps(&["\\", ".\\", "\\.", "\u{130}", " ", "\u{A0}", "\u{200B}", "\u{FEFF}"])),
                 0 => format!("Token{}.flat.sol", k),
                 1 => format!(".Hidden{}.sol", k),
                 2 => format!("ERC20.permit.v{}.sol", k),
